@@ -136,6 +136,17 @@ type Sim struct {
 
 var cur atomic.Pointer[Sim]
 
+// epoch counts simulated runs.  A run that was aborted can leave goroutines behind that are
+// blocked for ever (sleeping on a clock that stopped, or in a channel operation) while holding a
+// simulated lock; ssync re-initialises a lock the first time it is touched in a new epoch, so
+// that the next run in the same process starts with every lock free.
+var epoch atomic.Int64
+
+// Epoch returns the number of the current simulated run.
+//
+//go:norace
+func Epoch() int64 { return epoch.Load() }
+
 // Active returns the running simulation or nil.
 //
 //go:norace
@@ -226,6 +237,7 @@ func Run(t *testing.T, cfg Config, sched *Tape, body func()) (s *Sim) {
 	if cfg.MaxSimTime == 0 {
 		cfg.MaxSimTime = time.Hour
 	}
+	epoch.Add(1)
 	s = &Sim{Sched: sched, cfg: cfg, kick: nil}
 	s.Stats.SwitchPairs = map[string]int{}
 	// policy parameters are part of the schedule tape, so a replay uses the same policy
